@@ -40,7 +40,7 @@ func init() {
 		Shards:   shards(8, 16),
 		Timeout:  timeouts(4*time.Minute, 40*time.Minute),
 		MinEvals: 200,
-		Required: []string{"field:walk", "field:create", "field:rename", "field:attach", "root:remove", "root:rename", "root:remove-emptied", "sentinel_snapshots_compared", "followups_after_hostile_rename", "requests_refused", "requests_accepted", "vanished_cwd_probes"},
+		Required: []string{"field:walk", "field:create", "field:rename", "field:attach", "rename_chains", "root:fresh-fid-after-change", "root:remove", "root:rename", "root:remove-emptied", "sentinel_snapshots_compared", "followups_after_hostile_rename", "requests_refused", "requests_accepted", "vanished_cwd_probes"},
 		Run:      runC15,
 	})
 }
@@ -356,6 +356,16 @@ func (d *c15driver) run(seqNo int) {
 		if r.Intn(3) == 0 {
 			dir.Length = 2 // rename and truncate in one request
 		}
+		// sometimes preceded by other hostile renames of the same fid (refused or not, the fid must stay inside)
+		for k := r.Intn(3); k > 0; k-- {
+			pre := c15hostile[r.Intn(len(c15hostile))]
+			if r.Intn(2) == 0 {
+				pre = []string{"/etc", "/", "/x", "//", "/../x"}[r.Intn(5)]
+			}
+			perr := d.sess.WStat(ctx, nf, p9p.Dir{Mode: ^uint32(0), Length: ^uint64(0), Name: pre})
+			d.trace = append(d.trace, fmt.Sprintf("WStat(%s, name=%.80q) err=%v", target, pre, perr))
+			d.w.Count("rename_chains", 1)
+		}
 		err = d.sess.WStat(ctx, nf, dir)
 		d.trace = append(d.trace, fmt.Sprintf("WStat(%s, name=%.80q, length=%d)", target, hn, int64(dir.Length)))
 		d.w.Count("field:rename", 1)
@@ -392,6 +402,17 @@ func (d *c15driver) run(seqNo int) {
 				}
 			}
 			d.w.Count("root:remove-emptied", 1)
+			if r.Intn(2) == 0 {
+				// a root fid obtained only now, after the root directory has changed
+				d.sess.Clunk(ctx, nf)
+				nf = d.fid()
+				if r.Intn(2) == 0 {
+					d.sess.Walk(ctx, 0, nf)
+				} else {
+					d.sess.Attach(ctx, nf, p9p.NOFID, "u", "")
+				}
+				d.w.Count("root:fresh-fid-after-change", 1)
+			}
 		}
 		if r.Intn(2) == 0 {
 			err := d.sess.Remove(ctx, nf)
